@@ -56,6 +56,9 @@ static void* parsec_base_future_get(parsec_base_future_t* future)
             parsec_atomic_rmb();
             return future->tracked_data;
         }
+#if defined(PARSEC_VERIF)
+        PARSEC_VERIF_YIELD(PARSEC_VERIF_K_SPIN, &future->status);
+#endif
     }
     return NULL;
 }
